@@ -1059,6 +1059,12 @@ func (l *live) newUpdater() {
 	}
 	build := func(b []byte) (uval, error) {
 		us.nBuildFn++
+		if us.u == nil {
+			// the initial build inside NewUpdater: the secret is being read
+			// right now (the call may return much later, or fail)
+			l.lastRead[n] = l.storeNow()
+			l.readStamp[n] = w.Stamp()
+		}
 		dn, dv, ok := Decode(b)
 		if ok {
 			us.att = dv
@@ -1095,6 +1101,12 @@ func (l *live) newUpdater() {
 		l.endPin(pc, err == nil)
 		us.created = w.Stamp()
 		l.tasksBusy--
+		if us.nBuildFn > 0 && gen == l.generation {
+			// the builder was handed the value: the secret was read, whether
+			// or not the builder liked it
+			l.lastRead[n] = l.storeNow()
+			l.readStamp[n] = us.created
+		}
 		if err != nil || gen != l.generation {
 			w.Tracef("NewUpdater(%q) failed: %v", n, err)
 			return
